@@ -241,3 +241,29 @@ def stateless_constructs(chk, repo, rule):
                             f"(sizes, reference dates) - later records are decoded with the first one's state", key=f"{mod.name}:{q}.{m}:stateful")
     if n == 0:
         raise AnalysisError("anchor vanished: no construct subclass with parse methods in the package")
+
+
+
+SNIFFING = {"Optional", "Select", "GreedyRange", "GreedyBytes", "GreedyString", "Peek", "RepeatUntil", "NullTerminated", "CString", "StopIf"}
+
+
+def declared_multiplicities(chk, L, rule, keys):
+    """the number of repeated / optional records is what the file declares, never what the following bytes happen to look
+    like: a layout that contains a content-sniffing construct (GreedyRange, Optional, Select, RepeatUntil, Peek ...) takes
+    as many records as *parse*, so a record that follows and happens to parse is swallowed.
+    -> keys whose layout could be evaluated"""
+    from ..layout import UnmodelledConstruct
+    chk.rule(rule, "repeated and optional records are delimited by declared counts / lengths, not by sniffing the content", len(keys))
+    good = []
+    for key in keys:
+        try:
+            L.get(key)
+        except UnmodelledConstruct as e:
+            if e.name in SNIFFING:
+                chk.fail(rule, key, f"construct.{e.name} in the {key} layout: how many records are taken depends on whether the following bytes happen to parse, not on the declared count - "
+                                    f"a record that follows (and parses) is swallowed, a blank one ends the sequence early; everything after it is decoded from the wrong bytes", key=f"{key}:{e.name}:sniffing")
+                continue
+            raise
+        chk.ok(rule, key, "no content-sniffing construct in the layout")
+        good.append(key)
+    return good
